@@ -341,7 +341,7 @@ func (e *Engine) doCall(st *State, call *ssa.CallCommon, fnv Val, args []Val, re
 		}
 	}
 	// unknown callee: havoc
-	e.havocCall(st, key, callee, args)
+	e.havocCall(st, key, callee, args, pos)
 	var res Val
 	switch sig.Results().Len() {
 	case 0:
@@ -375,7 +375,7 @@ func hasRefs(v Val) bool {
 	return false
 }
 
-func (e *Engine) havocCall(st *State, key string, callee *ssa.Function, args []Val) {
+func (e *Engine) havocCall(st *State, key string, callee *ssa.Function, args []Val, pos token.Pos) {
 	refs := false
 	for _, a := range args {
 		if hasRefs(a) {
@@ -396,7 +396,7 @@ func (e *Engine) havocCall(st *State, key string, callee *ssa.Function, args []V
 		// external callee without a contract: shallow frame (assumption, listed in the evidence): it may change the
 		// objects its reference arguments point to (pointee / slice elements / map / receiver) and allocate, nothing else.
 		e.havocCalls[key+" (external, no contract: shallow frame assumed - may modify only the objects its arguments refer to)"] = true
-		e.havocShallow(st, args)
+		e.havocShallow(st, args, key, pos)
 		st.bumpWatermark()
 		return
 	}
@@ -409,16 +409,14 @@ func (e *Engine) havocCall(st *State, key string, callee *ssa.Function, args []V
 	} else {
 		e.havocCalls[key+" (module code without contract: all program heaps havocked; ghost state kept: the callee cannot reach an operation that changes it)"] = true
 	}
+	e.checkHavocFrame(st, key, true, nil, pos)
 	e.havocAllG(st, ghost)
 }
 
 // havocShallow: the pointee of a pointer argument, the elements of a slice argument, the contents of a map argument
 // and the object behind an interface argument may change; nothing else.
-func (e *Engine) havocShallow(st *State, args []Val) {
-	type pred struct {
-		heap string
-		f    func(a string) string
-	}
+func (e *Engine) havocShallow(st *State, args []Val, key string, pos token.Pos) {
+	type pred = havocPred
 	var preds []pred
 	var roots []string
 	var walk func(v Val)
@@ -507,6 +505,7 @@ func (e *Engine) havocShallow(st *State, args []Val) {
 			}
 		}
 	}
+	e.checkHavocFrame(st, key, false, preds, pos)
 	by := map[string][]pred{}
 	var order []string
 	for _, p := range preds {
@@ -738,10 +737,12 @@ func (e *Engine) applyContract(st *State, c *FuncContract, key string, sig *type
 	for k, v := range st.heaps {
 		env.old[k] = v
 	}
+	wmBefore := st.wm()
 	if !c.HasAssigns {
 		for _, a := range args {
 			st.escape(a)
 		}
+		e.checkHavocFrame(st, key, true, nil, pos)
 		e.havocAll(st)
 	} else if len(c.Assigns) > 0 {
 		e.checkCalleeAssigns(st, env, c.Assigns, pos)
@@ -758,6 +759,9 @@ func (e *Engine) applyContract(st *State, c *FuncContract, key string, sig *type
 		rs = append(rs, rv)
 	}
 	bindResults(env, c, rs)
+	// fresh(x) in a postcondition assumed here: the object was allocated during the call, i.e. after everything that
+	// exists now (its root lies below the allocation watermark of this moment)
+	env.freshWM = wmBefore
 	// a clause "result == x" / "resultN == x" names the result by a callee-local identifier x: at call sites x is
 	// that result (other clauses may be stated over x, e.g. to match the shape of a loop invariant)
 	for _, en := range c.Ensures {
@@ -980,12 +984,17 @@ func (e *Engine) appendOp(st *State, s, xs Val, sliceT types.Type) Val {
 	// Frame: when the slice has spare capacity append writes IN PLACE into its backing array. The result is still
 	// modelled as a fresh object (aliasing of the result is not modelled), but the in-place write is a frame
 	// obligation of the function under contract, so code that appends into caller-visible memory is reported.
-	if ac := st.assignsEnv; ac != nil && ac.enabled && !ac.all && s.Root == "" && s.Base != "null" {
+	for _, ac := range st.activeACs() {
+		// (checked against the function's frame only: the write goes to the spare capacity behind the slice's length,
+		// which no fact kept across a loop cut can mention unless a longer slice of the same array is in use)
+		if s.Base == "null" || s.Root != "" || ac.loop != 0 {
+			continue
+		}
 		var cs []string
 		leafPaths(elemAt(s.Base, s.Off, s.Len), et, func(a string, k Kind, lt types.Type) {
 			cs = append(cs, e.allowedPred(ac, heapFor(k, lt), a))
 		})
-		st.addCheck(&Check{Name: fmt.Sprintf("%s.assigns@append", e.curFunc), Kind: "assigns", Goal: sImp(sAnd(sNot(sEq(s.Base, "null")), sLt(s.Len, s.Cap)), sAnd(cs...)), Func: e.curFunc, Clause: "append writes in place when the slice has spare capacity"})
+		st.addCheck(&Check{Name: e.acName(ac, "append"), Kind: "assigns", Goal: sImp(sAnd(sNot(sEq(s.Base, "null")), sLt(s.Len, s.Cap)), sAnd(cs...)), Func: e.curFunc, Clause: "append writes in place when the slice has spare capacity"})
 	}
 	root := st.newRoot()
 	addr := "(ref " + root + " pnil)"
@@ -1110,6 +1119,10 @@ func (e *Engine) makeIface(st *State, x Val, from, to types.Type) Val {
 			i++
 		})
 		st.escape(x)
+		if x.K == KSlice && x.Base != "" {
+			// a boxed slice refers to its backing array: obj(x) / shallow frames on the interface value reach the elements
+			return Val{K: KIface, T: "(ibox " + tag + " " + id + " " + x.Base + " str_empty)", Ty: to, NonNil: true}
+		}
 		return Val{K: KIface, T: "(ibox " + tag + " " + id + " null str_empty)", Ty: to, NonNil: true}
 	}
 }
